@@ -115,16 +115,23 @@ func runC11(c *Ctx) {
 				if nx, ok := ex.Tuple.(*ssa.Next); ok {
 					if rg, ok := nx.Iter.(*ssa.Range); ok {
 						if k, ok := loadedField(rg.X); ok && k == mField {
+							// every completed iteration (a path from the body's entry back to the iterator's Next)
+							// deleted an entry of m.m: once the range is exhausted, nothing it visited is left
 							body := iff.Block().Succs[0]
-							del := false
-							for _, in := range body.Instrs {
+							isDel := func(in ssa.Instruction) bool {
 								if ci, ok := isCall(in, "builtin:delete"); ok {
 									if k2, ok := loadedField(ci.Common().Args[0]); ok && k2 == mField {
-										del = true
+										return true
 									}
 								}
+								return false
 							}
-							return del
+							hasDel := false
+							if _, ok := reachFromBlock(body, isDel, func(x ssa.Instruction) bool { return x == ssa.Instruction(nx) }); ok {
+								hasDel = true
+							}
+							_, skips := reachFromBlock(body, func(x ssa.Instruction) bool { return x == ssa.Instruction(nx) }, isDel)
+							return hasDel && !skips
 						}
 					}
 				}
@@ -142,6 +149,69 @@ func runC11(c *Ctx) {
 		if len(inserts) == 0 {
 			c.anchorMissing("map insert in shard.set")
 		}
+		// a helper method of the shard that makes room itself: none of its returns is reachable from its entry without
+		// crossing a certified edge, and it neither locks nor unlocks (it runs in the caller's critical section)
+		makesRoom := map[*ssa.Function]bool{}
+		for _, h := range c.P.funcsIn(relCMap) {
+			if h == set || len(h.Blocks) == 0 || h.Signature.Recv() == nil || !strings.Contains(h.Signature.Recv().Type().String(), "shard") {
+				continue
+			}
+			locks := false
+			eachInstr(h, func(in ssa.Instruction) {
+				if ci, ok := in.(ssa.CallInstruction); ok {
+					if cl, isC := in.(*ssa.Call); isC {
+						if _, _, isLock := lockOp(cl); isLock {
+							locks = true
+						}
+					}
+					_ = ci
+				}
+			})
+			if locks {
+				continue
+			}
+			seenH := map[*ssa.BasicBlock]bool{h.Blocks[0]: true}
+			workH := []*ssa.BasicBlock{h.Blocks[0]}
+			leaks := false
+			for len(workH) > 0 {
+				b := workH[0]
+				workH = workH[1:]
+				if _, isRet := terminator(b).(*ssa.Return); isRet {
+					leaks = true
+					break
+				}
+				iff, isIf := terminator(b).(*ssa.If)
+				for i, sb := range b.Succs {
+					if isIf && certified(iff, i == 0) {
+						continue
+					}
+					if !seenH[sb] {
+						seenH[sb] = true
+						workH = append(workH, sb)
+					}
+				}
+			}
+			if !leaks {
+				makesRoom[h] = true
+			}
+		}
+		callsRoomMaker := func(b *ssa.BasicBlock, before ssa.Instruction) bool {
+			for _, in := range b.Instrs {
+				if in == before {
+					return false
+				}
+				if cl, ok := in.(*ssa.Call); ok {
+					sc := cl.Call.StaticCallee()
+					if sc != nil && sc.Origin() != nil {
+						sc = sc.Origin()
+					}
+					if sc != nil && makesRoom[sc] {
+						return true
+					}
+				}
+			}
+			return false
+		}
 		for _, mu := range inserts {
 			// search from entry without crossing certified edges
 			seen := map[*ssa.BasicBlock]bool{set.Blocks[0]: true}
@@ -151,8 +221,14 @@ func runC11(c *Ctx) {
 				b := work[0]
 				work = work[1:]
 				if b == mu.Block() {
-					reached = true
-					break
+					if !callsRoomMaker(b, mu) {
+						reached = true
+						break
+					}
+					continue
+				}
+				if callsRoomMaker(b, nil) {
+					continue
 				}
 				iff, isIf := terminator(b).(*ssa.If)
 				for i, s := range b.Succs {
@@ -359,24 +435,55 @@ func runC11(c *Ctx) {
 				if cl, ok := v.(*ssa.Call); ok && callName(cl) == "(time.Time).After" && !truth {
 					continue
 				}
-				extra = guardText(g)
-			}
-			// and every return is behind the Set, except the one for an already expired entry
-			for _, r := range returnsOf(stF) {
-				if instrDominates(in, r) {
+				if g.Derived {
 					continue
 				}
-				expired := false
-				for _, g := range guardsOfInstr(r) {
-					v, truth := g.asBool()
-					if cl, ok := v.(*ssa.Call); ok && callName(cl) == "(time.Time).After" && truth && cl.Call.Args[1] == ssa.Value(stF.Params[3]) {
-						if c2, ok := cl.Call.Args[0].(*ssa.Call); ok && callName(c2) == "time.Now" {
-							expired = true
+				extra = guardText(g)
+			}
+			// and no return is reachable without the Set, except through the "already expired" edge
+			// (time.Now().After(expiration) is true) — whatever the shape: early return or guarded block
+			{
+				type edge struct{ from, to *ssa.BasicBlock }
+				removed := map[edge]bool{}
+				eachInstr(stF, func(x ssa.Instruction) {
+					iff, ok := x.(*ssa.If)
+					if !ok {
+						return
+					}
+					for _, truth := range []bool{true, false} {
+						g := guard{Cond: iff.Cond, Truth: truth, If: iff}
+						v, t := g.asBool()
+						if cl, ok := v.(*ssa.Call); ok && callName(cl) == "(time.Time).After" && t && cl.Call.Args[1] == ssa.Value(stF.Params[3]) {
+							if c2, ok := cl.Call.Args[0].(*ssa.Call); ok && callName(c2) == "time.Now" {
+								removed[edge{iff.Block(), succOnTruth(iff, truth)}] = true
+							}
 						}
 					}
-				}
-				if !expired {
-					extra = "a return that skips the Set for a reason other than 'already expired'"
+				})
+				seen := map[*ssa.BasicBlock]bool{stF.Blocks[0]: true}
+				work := []*ssa.BasicBlock{stF.Blocks[0]}
+				for len(work) > 0 {
+					b := work[0]
+					work = work[1:]
+					hasSet := false
+					for _, x := range b.Instrs {
+						if x == in {
+							hasSet = true
+						}
+					}
+					if hasSet {
+						continue
+					}
+					if _, isRet := terminator(b).(*ssa.Return); isRet && b.Comment != "recover" {
+						extra = "a return that skips the Set for a reason other than 'already expired'"
+					}
+					for _, sb := range b.Succs {
+						if removed[edge{b, sb}] || seen[sb] {
+							continue
+						}
+						seen[sb] = true
+						work = append(work, sb)
+					}
 				}
 			}
 			c.check(extra == "", "store-always-sets", instrPos(in), "Store sets the entry unless it is already expired", "Store sets the entry only under "+extra+": a value stored later is silently dropped and Get keeps returning the overwritten one")
@@ -600,6 +707,12 @@ func checkExpiryGuards(c *Ctx) {
 							okGuard = true
 						}
 					}
+					// the same predicate behind a method of the entry: e.expired(time.Now())
+					if !truth && isExpiredHelper(cl.Call.StaticCallee()) && len(cl.Call.Args) == 2 {
+						if c2, ok := cl.Call.Args[1].(*ssa.Call); ok && callName(c2) == "time.Now" {
+							okGuard = true
+						}
+					}
 				}
 			}
 			c.check(okGuard, "hit-return@"+funcName(get), instrPos(r), "hit is returned only under 'not expired'",
@@ -628,10 +741,50 @@ func checkExpiryGuards(c *Ctx) {
 						okDel = true
 					}
 				}
+				if cl, ok := del.(*ssa.Call); ok && isExpiredHelper(cl.Call.StaticCallee()) {
+					okDel = true
+				}
 				c.check(okDel, "sweep-verdict@"+funcName(an), instrPos(r), "sweep deletes exactly when now is after the entry's expiry",
 					"the sweep's delete verdict is not 'now.After(expirationTime)': live entries can be removed or dead ones kept")
 			}
 		}
 	}
 
+}
+
+// isExpiredHelper: a method of the cache entry whose only return is `recv.expirationTime.Before(<its time parameter>)`
+// or `<its time parameter>.After(recv.expirationTime)`.
+func isExpiredHelper(h *ssa.Function) bool {
+	if h == nil {
+		return false
+	}
+	if o := h.Origin(); o != nil {
+		h = o
+	}
+	if len(h.Blocks) == 0 || !inMosdns(h) || len(h.Params) != 2 {
+		return false
+	}
+	rets := returnsOf(h)
+	if len(rets) != 1 || len(rets[0].Results) != 1 {
+		return false
+	}
+	cl, ok := rets[0].Results[0].(*ssa.Call)
+	if !ok {
+		return false
+	}
+	isExp := func(x ssa.Value) bool {
+		k, ok := loadedField(x)
+		if !ok || !strings.HasSuffix(k, ".elem.expirationTime") {
+			return false
+		}
+		ld, ok := x.(*ssa.UnOp)
+		return ok && fieldBase(ld.X) == ssa.Value(h.Params[0])
+	}
+	switch callName(cl) {
+	case "(time.Time).Before":
+		return isExp(cl.Call.Args[0]) && cl.Call.Args[1] == ssa.Value(h.Params[1])
+	case "(time.Time).After":
+		return cl.Call.Args[0] == ssa.Value(h.Params[1]) && isExp(cl.Call.Args[1])
+	}
+	return false
 }
